@@ -69,6 +69,23 @@ def assigned_names(node):
     return out
 
 
+def _decompose(cn, truth, out):
+    """(a && b) true => a true, b true; (a || b) false => a false, b false; !a flips.  With all sub-expressions
+    added, clang's CFG joins the operands of && / || before the branch, so the branch fact is on the whole expression."""
+    while cn is not None and cn.get('k') == 'Un' and cn.get('op') == '!' and cn.get('c'):
+        cn = cn['c'][0]
+        truth = not truth
+    if cn is None:
+        return
+    out.append((cn, truth))
+    if cn.get('k') == 'Bin' and cn.get('op') == '&&' and truth:
+        _decompose(cn['c'][0], True, out)
+        _decompose(cn['c'][1], True, out)
+    elif cn.get('k') == 'Bin' and cn.get('op') == '||' and not truth:
+        _decompose(cn['c'][0], False, out)
+        _decompose(cn['c'][1], False, out)
+
+
 class FuncFacts:
     """Per-function guard facts: which branch conditions hold (on every path) at a node."""
 
@@ -112,11 +129,8 @@ class FuncFacts:
         out = []
         for cid, truth in fin:
             cn = self.func.nodes.get(cid)
-            while cn is not None and cn.get('k') == 'Un' and cn.get('op') == '!' and cn.get('c'):
-                cn = cn['c'][0]
-                truth = not truth
             if cn is not None:
-                out.append((cn, truth))
+                _decompose(cn, truth, out)
         # conditions evaluated earlier in the same block do not branch (a block has one terminator), so done.
         # A lambda body inherits the facts holding where the lambda expression is created *only* for
         # by-value immutable data; we do not assume that.
@@ -340,4 +354,39 @@ def paths(cfg, limit=20000):
         for s in cfg.succ[b]:
             if s not in p:
                 st.append((s, p + (s,)))
+    return out
+
+
+def derives_from(func, cond, call):
+    """Does the branch condition `cond` test the result of `call` - directly, or through a local that is assigned
+    from an expression containing the call?"""
+    if cond is None:
+        return False
+    for x in walk(cond):
+        if x is call:
+            return True
+    for x in walk(cond):
+        if x.get('k') == 'Ref' and x.get('dk') == 'local':
+            d = x['d']
+            for v in func.walk():
+                c = v.get('c', [])
+                src = None
+                if v.get('k') == 'Var' and v.get('d') == d and c:
+                    src = c[0]
+                elif v.get('k') in ('Bin', 'CAssign') and c and c[0].get('k') == 'Ref' and c[0].get('d') == d and len(c) > 1:
+                    src = c[1]
+                if src is not None and any(y is call for y in walk(src)):
+                    return True
+    return False
+
+
+def issues_depending_on(func, call, adders=('addIssue', 'addMathmlIssue')):
+    """addIssue-like calls that are control dependent on the outcome of `call`."""
+    out = []
+    for a in func.walk():
+        if a.get('k') == 'Call' and a.get('fn') in adders:
+            for c, t in (ff(func).conds_at(a) or []):
+                if derives_from(func, c, call):
+                    out.append(a)
+                    break
     return out
